@@ -49,8 +49,14 @@ SPEC = {
         "`neuron.spike` read after a call equals that call's output (C03; neurons with refrac_t >= dt are generated, refrac_t = 0 "
         "is the known finding D4), and each component's own clear() behaves like a fresh twin (checked on the real components by (c))",
         "no connection_kwargs / neuron_kwargs / extra wiring kwargs are passed; trainable_feedback cells are built but not trained",
-        "component names are distinct (ModuleDict keys); Biclique inputs name every connection (in any order for the commutative "
-        "built-in modes, in registration order for the order-sensitive custom callable)",
+        "component names are distinct (ModuleDict keys); Biclique inputs name every connection or a non-empty subset of them (in any "
+        "order for the commutative built-in modes, in registration order for the order-sensitive custom callable); a step that "
+        "drives a subset is judged against the specification of the biclique layer of exactly the driven connections (the Lean "
+        "driver is started anew, on the continuing component tapes, whenever the driven set changes); an empty inputs dictionary "
+        "is not generated",
+        "RecurrentSerial.clear(submodules=False) and a neuron group called directly while no feedback is stored are presented to the "
+        "driver as the start of a new run on the continuing component tapes (stored feedback = none, components as they are); "
+        "clear(clear_feedback=False) is not generated",
         "integer-valued connection outputs and float64 tensors so that sum/mean/prod/min/max and transforms are exact; "
         "mean inputs are multiples of 12 so the mean is integral",
         "tensors are immutable values in the Lean model: a transform named `x_` is the same function of values as `x`. Sharing of "
@@ -241,32 +247,67 @@ def comp_names(sc):
     return ["feedfwd", "lateral", "feedback"], ["feedfwd", "feedback"]
 
 
-def begin_line(sc):
+def begin_line(sc, cn=None):
+    """`cn` (biclique only): the connections DRIVEN in this segment, in registration order — a biclique layer called with an
+    `inputs` dictionary naming a subset of its connections must behave as the biclique layer of exactly those connections"""
     if sc["kind"] == "serial":
         return f"begin serial {tname(sc['trans'])}"
     if sc["kind"] == "biclique":
-        cs = "|".join(f"{c['name']}:{tname(c['post'])}" for c in sc["conns"])
+        cs = "|".join(f"{c['name']}:{tname(c['post'])}" for c in sc["conns"] if cn is None or c["name"] in cn)
         ns = "|".join(f"{n['name']}:{tname(n['pre'])}" for n in sc["neurons"])
         return f"begin biclique {sc['combine']} {cs} {ns}"
     return "begin recurrent " + " ".join(tname(t) for t in sc["rtrans"])
 
 
+def plan_segments(sc):
+    """The Lean driver runs ONE layer per `begin` block with every connection named on every step and knows `clear` only as
+    the full clear.  Its components are tapes (they replay what the real components received / returned), so a run can be cut
+    into consecutive blocks without losing any state.  A new block starts
+      * biclique: whenever the SET of driven connections changes (the block's layer = the biclique of the driven connections:
+        'only input modules that have keys in inputs will be run and added to the positional argument of wiring');
+      * recurrent: after `clear_fb` (layer.clear(submodules=False): stored feedback forgotten, components untouched) and after
+        `kick` (a neuron group stepped on its own while no feedback is stored) — in the new block the specification starts
+        with 'no feedback spikes of a previous step', the components simply continue.
+    returns a list of (driven names or None, events)"""
+    segs, cur = [], {"cn": None, "events": []}
+    for ev in sc["events"]:
+        if ev["op"] == "step" and sc["kind"] == "biclique":
+            names = frozenset(k for k, _ in ev["inputs"])
+            if cur["cn"] is None:
+                cur["cn"] = names
+            elif names != cur["cn"]:
+                segs.append(cur)
+                cur = {"cn": names, "events": []}
+            cur["events"].append(ev)
+        elif ev["op"] in ("clear_fb", "kick"):
+            cur["events"].append(ev)
+            segs.append(cur)
+            cur = {"cn": None, "events": []}
+        else:
+            cur["events"].append(ev)
+    if cur["events"] or not segs:
+        segs.append(cur)
+    return [(g["cn"], g["events"]) for g in segs]
+
+
+def kick_tensor(sc, ev):
+    n = sc["neurons"][ev["target"]]
+    return torch.tensor(ev["values"], dtype=DT).reshape(sc["B"], *n["shape"]) * float(ev["amp"])
+
+
 def record_run(sc):
     """runs the real layer through the scenario's events; returns (driver lines, real views)"""
     layer, conns, neurs = build(sc)
-    cn, nn = comp_names(sc)
-    tapes = {}
-    lines = [begin_line(sc)]
-    for k, m in zip(nn, neurs):
-        lines.append(f"peek n:{k} {ten_s(m.spike)}")
-    for k in cn:
-        lines.append(f"peek c:{k} 1:0")
+    cn_all, nn = comp_names(sc)
+    rec = {"tapes": {}, "mute": False}
 
     last_out = {}
 
     def hook(key):
         def fn(module, args, output):
-            tapes.setdefault(key, []).append(f"tape {key} call {tens_s(args)} {ten_s(output)}")
+            if rec["mute"]:
+                return
+            rec["tapes"].setdefault(key, []).append(f"tape {key} call {tens_s(args)} {ten_s(output)}")
             if key.startswith("c:"):
                 last_out[key[2:]] = output.detach().clone()
         return fn
@@ -276,53 +317,80 @@ def record_run(sc):
 
         def wrapped(**kw):
             orig(**kw)
-            tapes.setdefault(key, []).append(f"tape {key} clear {ten_s(m.spike) if is_neuron else '1:0'}")
+            rec["tapes"].setdefault(key, []).append(f"tape {key} clear {ten_s(m.spike) if is_neuron else '1:0'}")
         m.__dict__["clear"] = wrapped      # inferno.Module.__setattr__ routes class attributes to descriptors
 
-    for k, m in zip(cn, conns):
+    for k, m in zip(cn_all, conns):
         m.register_forward_hook(hook("c:" + k))
         wrap_clear("c:" + k, m, False)
     for k, m in zip(nn, neurs):
         m.register_forward_hook(hook("n:" + k))
         wrap_clear("n:" + k, m, True)
 
-    ops, views, outs = [], [], []
-    raised = False
-    for ev in sc["events"]:
-        if ev["op"] == "learn":
-            apply_learn(sc, conns, ev)
-            continue
-        if ev["op"] == "clear":
-            ops.append("clear")
+    all_lines, all_views, outs = [], [], []
+    for seg_cn, events in plan_segments(sc):
+        cn = [k for k in cn_all if seg_cn is None or k in seg_cn]
+        head = [begin_line(sc, cn)]
+        for k, m in zip(nn, neurs):
+            head.append(f"peek n:{k} {ten_s(m.spike)}")
+        for k in cn:
+            head.append(f"peek c:{k} 1:0")
+        rec["tapes"] = {}
+        ops, views = [], []
+        side_err = None
+        for ev in events:
+            if ev["op"] == "learn":
+                apply_learn(sc, conns, ev)
+                continue
+            if ev["op"] == "clear":
+                ops.append("clear")
+                try:
+                    layer.clear()
+                    views.append(("ok", "ok"))
+                except Exception as e:
+                    views.append((f"err {type(e).__name__}", f"err {type(e).__name__}"))
+                outs.append(None)
+                continue
+            if ev["op"] == "clear_fb":
+                # components must stay untouched (a component clear here lands on the tape and is left over at `end`)
+                try:
+                    layer.clear(submodules=False)
+                except Exception as e:
+                    side_err = side_err or f"err {type(e).__name__} in layer.clear(submodules=False)"
+                outs.append(None)
+                continue
+            if ev["op"] == "kick":
+                rec["mute"] = True
+                try:
+                    neurs[ev["target"]](kick_tensor(sc, ev))
+                except Exception as e:
+                    side_err = side_err or f"err {type(e).__name__} in a direct call of neuron group {ev['target']}"
+                rec["mute"] = False
+                outs.append(None)
+                continue
+            x = layer_inputs(sc, ev)
+            if sc["kind"] == "biclique":
+                ops.append("step " + "|".join(f"{k}={tens_s(v)}" for k, v in x.items()))
+            else:
+                ops.append("step " + tens_s(x))
             try:
-                layer.clear()
-                views.append(("ok", "ok"))
+                res = call_layer(sc, layer, x)
             except Exception as e:
                 views.append((f"err {type(e).__name__}", f"err {type(e).__name__}"))
-                raised = True
-            outs.append(None)
-            continue
-        x = layer_inputs(sc, ev)
-        if sc["kind"] == "biclique":
-            ops.append("step " + "|".join(f"{k}={tens_s(v)}" for k, v in x.items()))
-        else:
-            ops.append("step " + tens_s(x))
-        try:
-            res = call_layer(sc, layer, x)
-        except Exception as e:
-            views.append((f"err {type(e).__name__}", f"err {type(e).__name__}"))
-            outs.append(None)
-            raised = True
-            continue
-        res = clone_res(res)
-        outs.append(res)
-        views.append(step_view(sc, res, neurs, nn, cn, hooked=(dict(last_out) if mutates_conn_outputs(sc) else None)))
-    ops.append("end")
-    views.append(("consistent", "consistent") if not raised else ("consistent", "consistent"))
-    for key in ["c:" + k for k in cn] + ["n:" + k for k in nn]:
-        lines += tapes.get(key, [])
-    nhead = len(lines)
-    return lines + ops, [("ok", "ok")] * nhead + views, outs
+                outs.append(None)
+                continue
+            res = clone_res(res)
+            outs.append(res)
+            views.append(step_view(sc, res, neurs, nn, cn_all, hooked=(dict(last_out) if mutates_conn_outputs(sc) else None)))
+        ops.append("end")
+        views.append(("consistent", "consistent") if side_err is None else (side_err, side_err))
+        lines = list(head)
+        for key in ["c:" + k for k in cn] + ["n:" + k for k in nn]:
+            lines += rec["tapes"].get(key, [])
+        nhead = len(lines)
+        all_lines += lines + ops
+        all_views += [("ok", "ok")] * nhead + views
+    return all_lines, all_views, outs
 
 
 def mutates_conn_outputs(sc):
@@ -402,6 +470,14 @@ def manual_run(sc):
             for m in neurs:
                 m.clear()
             fb = None
+            outs.append(None)
+            continue
+        if ev["op"] == "clear_fb":          # forget the stored feedback only
+            fb = None
+            outs.append(None)
+            continue
+        if ev["op"] == "kick":              # a neuron group stepped on its own
+            neurs[ev["target"]](kick_tensor(sc, ev))
             outs.append(None)
             continue
         x = layer_inputs(sc, ev)
@@ -576,12 +652,26 @@ def spikes(rng, n, p=0.5):
     return [1 if rng.random() < p else 0 for _ in range(n)]
 
 
-def gen_events(rng, sc, T, with_clear=True):
+def gen_events(rng, sc, T, with_clear=True, partial=None):
+    """`partial` (biclique): None = draw; "all" = every connection driven on every step; "fixed" = one non-empty proper
+    subset of the registered connections driven throughout; "varying" = a fresh non-empty subset on every step"""
     evs = []
     B = sc["B"]
+    if sc["kind"] == "biclique":
+        if partial is None:
+            partial = rng.choice(["all", "all", "fixed", "varying"])
+        if len(sc["conns"]) < 2:
+            partial = "all"
+        names = [c["name"] for c in sc["conns"]]
+        fixed = set(rng.sample(names, rng.randint(1, len(names) - 1))) if partial == "fixed" else None
     for t in range(T):
         if sc["kind"] == "biclique":
             order = list(sc["conns"])
+            if partial == "fixed":
+                order = [c for c in order if c["name"] in fixed]
+            elif partial == "varying":
+                sub = set(rng.sample(names, rng.randint(1, len(names))))
+                order = [c for c in order if c["name"] in sub]
             if sc["combine"] != "custom" and rng.random() < 0.5:
                 rng.shuffle(order)
             inputs = []
@@ -604,7 +694,31 @@ def gen_events(rng, sc, T, with_clear=True):
         if rng.random() < 0.3:
             evs.insert(rng.randint(0, len(evs)), {"op": "clear"})
         evs.insert(rng.randint(0, len(evs)), {"op": "learn", "params": [gen_params(rng, c, sc["mult"]) for c in sc["conns"]]})
+    if sc["kind"] == "recurrent" and with_clear:
+        add_first_step_events(rng, sc, evs)
     return evs
+
+
+def gen_kick(rng, sc, target=None):
+    target = (1 if rng.random() < 0.8 else 0) if target is None else target
+    n = sc["B"] * math.prod(sc["neurons"][target]["shape"])
+    vals = spikes(rng, n, 0.7)
+    if not any(vals):
+        vals[rng.randrange(n)] = 1
+    return {"op": "kick", "target": target, "values": vals, "amp": 500}
+
+
+def add_first_step_events(rng, sc, evs, p_fb=0.5, p_kick=0.4):
+    """'first steps' of a recurrent layer other than the one of a brand-new layer: the stored feedback forgotten on its own
+    (`clear(submodules=False)`) at random positions of the run, and neuron groups that were stepped on their own (a strong
+    current: they spike) while the layer holds no feedback (before its first step, right after clear() / clear(submodules=False))"""
+    if rng.random() < p_fb:
+        for _ in range(rng.choice([1, 1, 2, 3])):
+            evs.insert(rng.randint(1, len(evs)), {"op": "clear_fb"})
+    if rng.random() < p_kick:
+        spots = [0] + [i + 1 for i, e in enumerate(evs) if e["op"] in ("clear", "clear_fb")]
+        for pos in sorted(set(rng.sample(spots, min(len(spots), rng.choice([1, 1, 2])))), reverse=True):
+            evs.insert(pos, gen_kick(rng, sc))
 
 
 def gen_scenario(rng, kind=None, T=None):
@@ -713,6 +827,27 @@ def boundary_scenarios(rng):
     sc = gen_scenario(rng, "serial", T=3)
     steps = [e for e in sc["events"] if e["op"] == "step"]
     sc["events"] = [{"op": "clear"}] + steps + [{"op": "clear"}] + steps
+    out.append(sc)
+    # every combine mode with >= 2 registered connections of which only some are driven: one proper subset throughout, and a
+    # different subset on every step (each neuron group gets the combination of the outputs actually handed to the wiring)
+    for mode in ("sum", "mean", "prod", "min", "max", "custom"):
+        for partial in ("fixed", "varying"):
+            while True:
+                sc = gen_scenario(rng, "biclique", T=4)
+                if sc["combine"] == mode and len(sc["conns"]) >= 2:
+                    break
+            sc["events"] = gen_events(rng, sc, 4, partial=partial)
+            out.append(sc)
+    # recurrent 'first steps': the stored feedback forgotten (clear(submodules=False)) after every step; a feedback group that
+    # was stepped on its own before the layer's first step and again after each kind of clear
+    sc = gen_scenario(rng, "recurrent", T=5)
+    steps = [e for e in sc["events"] if e["op"] == "step"]
+    sc["events"] = [e for st in steps for e in (st, {"op": "clear_fb"})] + steps[:2]
+    out.append(sc)
+    sc = gen_scenario(rng, "recurrent", T=4)
+    steps = [e for e in sc["events"] if e["op"] == "step"]
+    sc["events"] = ([gen_kick(rng, sc, 1)] + steps[:2] + [{"op": "clear_fb"}, gen_kick(rng, sc, 1)] + steps[2:] +
+                    [{"op": "clear"}, gen_kick(rng, sc, 1), gen_kick(rng, sc, 0)] + steps[:2])
     out.append(sc)
     return out
 
@@ -903,6 +1038,11 @@ def explore(ctx) -> Exploration:
             ex.count("neuron", nn_["type"])
         for e in sc["events"]:
             ex.count("events", e["op"])
+        if sc["kind"] == "biclique":
+            for e in sc["events"]:
+                if e["op"] == "step":
+                    ex.count("biclique_driven", "all" if len(e["inputs"]) == len(sc["conns"]) else "proper-subset")
+        ex.count("driver_blocks", str(len(plan_segments(sc))))
     run_scenarios(ctx, scenarios, ex)
     ex.rule = ("scenarios = corpus + boundary (batch 1, every combine mode with >= 2 neuron groups at batch 1 and 3, clear as first / "
                "last / repeated operation) + seeded random layers: Serial, Biclique (1-4 connections x 1-3 neuron groups, post-input and "
@@ -912,7 +1052,11 @@ def explore(ctx) -> Exploration:
                "adapting thresholds) / ExactNeuron groups; 3-7 steps of random spike inputs with clear() and a parameter change at random "
                "positions. Per scenario: (a) recorded real run replayed through the Lean model and specification on tapes, (b) manual "
                "composition twin, (c) clear() after every prefix length then replay against a fresh twin with the same parameters. "
-               "Non-trivial = some layer output contained a spike; distinct = distinct scenario JSON")
+               "Biclique runs drive all connections, one proper subset throughout, or a fresh subset per step (the driver then sees the "
+               "biclique layer of the driven connections, block by block). Recurrent runs also contain clear(submodules=False) "
+               "(feedback forgotten, components untouched) and neuron groups stepped on their own with a strong current while no "
+               "feedback is stored (before the first step, after either clear): the next step is a 'first' step and must see no "
+               "feedback spikes. Non-trivial = some layer output contained a spike; distinct = distinct scenario JSON")
     ex.samples = [bnd[0], rnd[0]]
     ex.extra["streams"] = {"corpus": ncorpus, "boundary": len(bnd), "random": len(rnd)}
     return ex
